@@ -32,6 +32,11 @@ pub struct Cmd {
     pub reasons: Option<Vec<String>>,
     pub pj_http: u16,
     pub pj_status: u16,
+    /// --option arguments WITHOUT '=' (not key=value options: nothing is carried for them), each
+    /// inserted before the option with that index
+    pub bare_options: Vec<(u8, String)>,
+    /// with -n only: the printer resets the (first) connection after 100 + len(doc)*x/256 request bytes
+    pub abort_upload: Option<u8>,
 }
 
 fn arg_text() -> BoxedStrategy<String> {
@@ -81,19 +86,25 @@ fn cmd() -> BoxedStrategy<Cmd> {
         (doc, any::<bool>(), proptest::option::of(arg_text()), proptest::option::of(arg_text()), proptest::collection::vec((key2, option_value()), 0..=6)),
         (prop_oneof![3 => Just(false), 1 => Just(true)], headers, any::<bool>(), prop_oneof![Just("/ipp/print".to_string()), Just("/".to_string()), Just("".to_string()), Just("/printers/q%201".to_string())]),
         (http(), ipp_status(), prop_oneof![2 => Just(3i32), 2 => Just(4i32), 1 => Just(5i32)], reasons, http(), ipp_status()),
+        (
+            prop_oneof![3 => Just(vec![]), 2 => proptest::collection::vec((any::<u8>(), proptest::sample::select(vec!["draft", "landscape", "fit-to-page", "x", "two-sided"]).prop_map(|s| s.to_string())), 1..3)],
+            prop_oneof![9 => Just(None), 1 => any::<u8>().prop_map(Some)],
+        ),
     )
-        .prop_map(|((doc, from_stdin, job_name, user_name, options), (no_check, headers, scheme_ipp, path), (gpa_http, gpa_status, state, reasons, pj_http, pj_status))| {
+        .prop_map(|((doc, from_stdin, job_name, user_name, options), (no_check, headers, scheme_ipp, path), (gpa_http, gpa_status, state, reasons, pj_http, pj_status), (bare_options, abort_upload))| {
             let mut hm = BTreeMap::new();
             for (k, v) in headers {
                 hm.insert(k, v);
             }
-            Cmd { doc, from_stdin, job_name, user_name, options, no_check, headers: hm.into_iter().collect(), scheme_ipp, path, gpa_http, gpa_status, state, reasons, pj_http, pj_status }
+            // a scripted upload abort needs the Print-Job to be the first connection: -n
+            let no_check = no_check || abort_upload.is_some();
+            Cmd { doc, from_stdin, job_name, user_name, options, no_check, headers: hm.into_iter().collect(), scheme_ipp, path, gpa_http, gpa_status, state, reasons, pj_http, pj_status, bare_options, abort_upload }
         })
         .boxed()
 }
 
 fn cmd_json(c: &Cmd) -> Value {
-    json!({"doc": hex(&c.doc), "from_stdin": c.from_stdin, "job_name": c.job_name, "user_name": c.user_name, "options": c.options, "no_check": c.no_check, "headers": c.headers, "scheme_ipp": c.scheme_ipp, "path": c.path,
+    json!({"doc": hex(&c.doc), "from_stdin": c.from_stdin, "job_name": c.job_name, "user_name": c.user_name, "options": c.options, "bare_options": c.bare_options, "abort_upload": c.abort_upload, "no_check": c.no_check, "headers": c.headers, "scheme_ipp": c.scheme_ipp, "path": c.path,
         "printer": {"gpa_http": c.gpa_http, "gpa_status": c.gpa_status, "state": c.state, "reasons": c.reasons, "pj_http": c.pj_http, "pj_status": c.pj_status}})
 }
 
@@ -119,6 +130,8 @@ fn cmd_from_json(v: &Value) -> Option<Cmd> {
         },
         pj_http: p.get("pj_http")?.as_u64()? as u16,
         pj_status: p.get("pj_status")?.as_u64()? as u16,
+        bare_options: v.get("bare_options").and_then(|b| b.as_array()).map(|a| a.iter().filter_map(|p| Some((p.get(0)?.as_u64()? as u8, p.get(1)?.as_str()?.to_string()))).collect()).unwrap_or_default(),
+        abort_upload: v.get("abort_upload").and_then(|a| a.as_u64()).map(|a| a as u8),
     })
 }
 
@@ -201,6 +214,10 @@ pub fn judge(c: &Cmd, p: &Probe) -> Judge {
         s
     });
     let server = Server::start(handler, None).map_err(|e| Fail::new("infra/server", format!("{e}")))?;
+    if let Some(x) = c.abort_upload {
+        server.abort_uploads.lock().unwrap().push((0, 100 + c.doc.len() * x as usize / 256));
+        p.label("printer resets the connection in the middle of the upload");
+    }
     let uri = format!("{}://127.0.0.1:{}{}", if c.scheme_ipp { "ipp" } else { "http" }, server.port, c.path);
     let mut args: Vec<String> = Vec::new();
     for (k, v) in &c.headers {
@@ -224,8 +241,17 @@ pub fn judge(c: &Cmd, p: &Probe) -> Judge {
     if let Some(u) = &c.user_name {
         args.push(format!("--user-name={u}"));
     }
-    for (k, v) in &c.options {
+    for (i, (k, v)) in c.options.iter().enumerate() {
+        for (_, b) in c.bare_options.iter().filter(|(at, _)| *at as usize % (c.options.len() + 1) == i) {
+            args.push(format!("--option={b}"));
+        }
         args.push(format!("--option={k}={v}"));
+    }
+    for (_, b) in c.bare_options.iter().filter(|(at, _)| *at as usize % (c.options.len() + 1) == c.options.len()) {
+        args.push(format!("--option={b}"));
+    }
+    if !c.bare_options.is_empty() {
+        p.label("arguments without '=' among the options");
     }
     args.push(uri.clone());
 
@@ -300,8 +326,11 @@ pub fn judge(c: &Cmd, p: &Probe) -> Judge {
     let ready = c.state != 5 && !blocking;
     let gpa_ok = c.gpa_http == 200 && c.gpa_status <= 2;
     let submit = c.no_check || (gpa_ok && ready);
-    let exit_ok = submit && c.pj_http == 200 && c.pj_status <= 2;
+    let aborted = c.abort_upload.is_some();
+    let exit_ok = submit && c.pj_http == 200 && c.pj_status <= 2 && !aborted;
     let expected_ops: Vec<u16> = match (c.no_check, submit) {
+        // the reset connection never delivers a complete request
+        (true, _) if aborted => vec![],
         (true, _) => vec![0x0002],
         (false, true) => vec![0x000b, 0x0002],
         (false, false) => vec![0x000b],
@@ -314,6 +343,16 @@ pub fn judge(c: &Cmd, p: &Probe) -> Judge {
         return Err(Fail::new("harness/clap-usage", format!("generated command line rejected by clap: {ctxs}; {stderr}")));
     }
     let seen_ops: Vec<u16> = recs.iter().map(|r| if r.body.len() >= 4 { ((r.body[2] as u16) << 8) | r.body[3] as u16 } else { 0 }).collect();
+    if aborted {
+        // whatever else happens, a Print-Job that does arrive completely must carry the document
+        for r in recs.iter().filter(|r| r.body.len() >= 4 && r.body[2] == 0 && r.body[3] == 2) {
+            if let Ok(d) = ref_decode(&r.body) {
+                if d.msg.payload != c.doc {
+                    return fail("document-bytes-after-upload-abort", format!("the printer reset the first connection in the middle of the upload; a Print-Job arrived afterwards whose document has {} bytes, the input has {}", d.msg.payload.len(), c.doc.len()));
+                }
+            }
+        }
+    }
     if seen_ops != expected_ops {
         let sig = if seen_ops.contains(&0x0002) && !submit { "submitted-to-blocked-printer" } else if !seen_ops.contains(&0x0002) && submit { "nothing-submitted" } else { "transcript" };
         return fail(sig, format!("the printer saw operations {seen_ops:04x?}, expected {expected_ops:04x?} (printer state {} reasons {:?}, Get-Printer-Attributes HTTP {} IPP status {:#06x})", c.state, c.reasons, c.gpa_http, c.gpa_status));
@@ -334,7 +373,7 @@ pub fn judge(c: &Cmd, p: &Probe) -> Judge {
         return fail("exit-status", format!("exit status {:?}, expected {} (Get-Printer-Attributes HTTP {} IPP {:#06x} state {} reasons {:?}; Print-Job HTTP {} IPP {:#06x}; -n {})", status.code(), if exit_ok { "0" } else { "non-zero" }, c.gpa_http, c.gpa_status, c.state, c.reasons, c.pj_http, c.pj_status, c.no_check));
     }
     // ---- the Print-Job request itself
-    if submit {
+    if submit && !aborted {
         let r = recs.last().unwrap();
         let d = ref_decode(&r.body).map_err(|e| Fail::new("C18/print-job-undecodable", format!("Print-Job body rejected by the reference decoder: {} at {}; {ctxs}", e.reason, e.offset)))?;
         if d.msg.payload != c.doc {
@@ -385,7 +424,7 @@ pub fn judge(c: &Cmd, p: &Probe) -> Judge {
 
 pub fn run(ctx: &Ctx) {
     ctx.shrink_iters.store(200, std::sync::atomic::Ordering::Relaxed);
-    ctx.set_rule("proptest-generated command lines for the REAL ipputil binary built from /repo (document from --file or stdin, 0 B-256 KiB of arbitrary bytes; optional --job-name / --user-name (any UTF-8); 0-6 --option key=value with values of each textual class: true/false, decimal i32 incl. sign, leading zeros, +-2^31 edges, keywords, values containing '=', near-misses like 'True', ' 7', '1e3'; duplicate keys; -n on/off; 0-2 --header) x scripted printer on a loopback HTTP server (Get-Printer-Attributes answer: HTTP status, IPP status, state 3/4/5, reasons absent/informational/with a blocking keyword at any position; Print-Job answer: HTTP status, IPP status). Oracle: transcript model (which operations the printer sees, in order), Print-Job payload == document bytes, attributes == expected model with options typed by the harness's own classifier, custom headers on every request, exit status 0 <=> every exchange succeeded with a successful status and the gate did not block. Non-trivial = document >= 1 KiB or from stdin, with >= 1 option and the state check active; distinct by (command line, script) hash.");
+    ctx.set_rule("proptest-generated command lines for the REAL ipputil binary built from /repo (document from --file or stdin, 0 B-256 KiB of arbitrary bytes; optional --job-name / --user-name (any UTF-8); 0-6 --option key=value with values of each textual class: true/false, decimal i32 incl. sign, leading zeros, +-2^31 edges, keywords, values containing '=', near-misses like 'True', ' 7', '1e3'; duplicate keys; 0-2 further --option arguments WITHOUT '=' at generated positions among them (not key=value options: they carry nothing and must not disturb the others); -n on/off; 0-2 --header) x scripted printer on a loopback HTTP server (Get-Printer-Attributes answer: HTTP status, IPP status, state 3/4/5, reasons absent/informational/with a blocking keyword at any position; Print-Job answer: HTTP status, IPP status; in 10 % of the cases (with -n) the printer resets the connection in the middle of the upload: exit status non-zero, and any Print-Job that arrives completely afterwards must still carry the whole document). Oracle: transcript model (which operations the printer sees, in order), Print-Job payload == document bytes, attributes == expected model with options typed by the harness's own classifier, custom headers on every request, exit status 0 <=> every exchange succeeded with a successful status and the gate did not block. Non-trivial = document >= 1 KiB or from stdin, with >= 1 option and the state check active; distinct by (command line, script) hash.");
     ctx.assume("only printer states for which the readiness truth table is defined (state 3/4/5, keyword reasons) are scripted");
     let (shards, per) = ctx.tier.pick((16, 75), (16, 1500));
     run_prop(ctx, "print", shards, per, cmd, judge, cmd_json);
